@@ -15,9 +15,7 @@ From Coq Require Import ZArith QArith Qround Qabs List Bool NArith.
 Require Import QV.C12.Model.
 Import ListNotations.
 
-Inductive ty := TInt | TTime | TFloat.
-Definition is_int (t : ty) : bool := match t with TInt => true | _ => false end.
-Definition is_float (t : ty) : bool := match t with TFloat => true | _ => false end.
+(* the type classes `ty` (TInt | TTime | TFloat), is_int, is_float: Spec.v (they classify the INPUTS of the exact clause) *)
 (* Python's numeric tower restricted to the three classes: float absorbs, then TimeType, then int *)
 Definition tjoin (a b : ty) : ty :=
   match a, b with
@@ -138,5 +136,3 @@ Definition ty_agree (t : ty) (o : option ty) : bool :=
               | _, _ => false
               end
   end.
-Definition exact_inputs (s : list (N * (Q * ty))) (v : list (N * (list Q * ty))) : bool :=
-  forallb (fun p => negb (is_float (snd (snd p)))) s && forallb (fun p => negb (is_float (snd (snd p)))) v.
